@@ -48,7 +48,7 @@ CLAIMED = {
              'kernels: Mesh2D._get_area is the absolute shoelace value, a plane-embedded 3D triangle has its planar area, the diagonal-cut quad '
              'centroid is the polygon centroid; for the hand model HoleMerge.v of Polygon2D._merge_boundary_and_hole (run against it for every '
              'bridge tried) the merged loop keeps the signed area sum boundary + hole(s) whatever vertices the bridge joins. Perimeter, '
-             'centroids, holes, meshes, prism volumes and closed forms are searched against exact Fraction references.',
+             'centroids, holes, meshes, prism volumes and closed forms are searched against exact Fraction references. Sphere / Cylinder / Cone area, volume, height, radius and slant height (generated) are proved to be the closed forms in radius and axis length, with k^2 / k^3 scaling under the generated scale.',
         note='Trusted: Coq kernel, py2coq, harness. Face3D model covers faces without holes (holes validated). Shoelace/Newell are the '
              'reference definition of area; sqrt-based lengths are validated only.',
         technique=T_Q),
